@@ -248,10 +248,13 @@ class Compiler(object):
 
     def pre_process(self):
         for module_name, module in self._specification.items():
+            self.pre_process_components_of(module['types'].values(),
+                                           module_name)
+
+        for module_name, module in self._specification.items():
             types = module['types']
             type_descriptors = types.values()
 
-            self.pre_process_components_of(type_descriptors, module_name)
             self.pre_process_extensibility_implied(module, type_descriptors)
             self.pre_process_tags(module, module_name)
             self.pre_process_default_value(type_descriptors, module_name)
